@@ -3,7 +3,6 @@ package main
 // C15: prism.ConvertImageToNRGBA / ToRGBA / ToRGBA64 against image/draw's Draw with the Src operator.
 
 import (
-	"runtime"
 	"bytes"
 	"fmt"
 	"image"
@@ -11,6 +10,7 @@ import (
 	"image/draw"
 	"math/rand"
 	"reflect"
+	"runtime"
 
 	"github.com/mandykoh/prism"
 )
@@ -151,66 +151,69 @@ func init() {
 				if tall {
 					pars = append(pars, 28)
 				}
-				for _, par := range pars {
-					for _, helper := range []string{"NRGBA", "RGBA", "RGBA64"} {
-						in := map[string]interface{}{"helper": "ConvertImageTo" + helper, "input": kind, "bounds": b.String(), "parallelism": par, "seed": seed, "extreme": extreme, "case": it}
-						wk.res.count(helper+"<-"+kind, fmt.Sprint(it, par, helper), !b.Empty())
-						var out image.Image
-						var outPix []byte
-						var outStride, bpp int
-						var ref draw.Image
-						var refPix []byte
-						if callNoPanic(func() {
-							switch helper {
-							case "NRGBA":
-								o := prism.ConvertImageToNRGBA(img, par)
-								out, outPix, outStride, bpp = o, o.Pix, o.Stride, 4
-								rf := image.NewNRGBA(b)
-								ref, refPix = rf, rf.Pix
-							case "RGBA":
-								o := prism.ConvertImageToRGBA(img, par)
-								out, outPix, outStride, bpp = o, o.Pix, o.Stride, 4
-								rf := image.NewRGBA(b)
-								ref, refPix = rf, rf.Pix
-							default:
-								o := prism.ConvertImageToRGBA64(img, par)
-								out, outPix, outStride, bpp = o, o.Pix, o.Stride, 8
-								rf := image.NewRGBA64(b)
-								ref, refPix = rf, rf.Pix
+				compareAll := func(pars []int, stage string) {
+					for _, par := range pars {
+						for _, helper := range []string{"NRGBA", "RGBA", "RGBA64"} {
+							in := map[string]interface{}{"helper": "ConvertImageTo" + helper, "input": kind, "bounds": b.String(), "parallelism": par, "seed": seed, "extreme": extreme, "case": it, "stage": stage}
+							wk.res.count(helper+"<-"+kind, fmt.Sprint(it, par, helper), !b.Empty())
+							var out image.Image
+							var outPix []byte
+							var outStride, bpp int
+							var ref draw.Image
+							var refPix []byte
+							if callNoPanic(func() {
+								switch helper {
+								case "NRGBA":
+									o := prism.ConvertImageToNRGBA(img, par)
+									out, outPix, outStride, bpp = o, o.Pix, o.Stride, 4
+									rf := image.NewNRGBA(b)
+									ref, refPix = rf, rf.Pix
+								case "RGBA":
+									o := prism.ConvertImageToRGBA(img, par)
+									out, outPix, outStride, bpp = o, o.Pix, o.Stride, 4
+									rf := image.NewRGBA(b)
+									ref, refPix = rf, rf.Pix
+								default:
+									o := prism.ConvertImageToRGBA64(img, par)
+									out, outPix, outStride, bpp = o, o.Pix, o.Stride, 8
+									rf := image.NewRGBA64(b)
+									ref, refPix = rf, rf.Pix
+								}
+							}) {
+								wk.res.fail(Failure{Seq: wk.seq, Class: "C15:panic:" + helper, Desc: "helper panicked", Input: in, Got: "panic", Want: "image"})
+								continue
 							}
-						}) {
-							wk.res.fail(Failure{Seq: wk.seq, Class: "C15:panic:" + helper, Desc: "helper panicked", Input: in, Got: "panic", Want: "image"})
-							continue
-						}
-						if reflect.TypeOf(img) == reflect.TypeOf(out) {
-							if reflect.ValueOf(img).Pointer() != reflect.ValueOf(out).Pointer() {
-								wk.res.fail(Failure{Seq: wk.seq, Class: "C15:identity:" + helper, Desc: "an input already of the target type must be returned as the same instance", Input: in, Got: "a different instance", Want: "same instance"})
+							if reflect.TypeOf(img) == reflect.TypeOf(out) {
+								if reflect.ValueOf(img).Pointer() != reflect.ValueOf(out).Pointer() {
+									wk.res.fail(Failure{Seq: wk.seq, Class: "C15:identity:" + helper, Desc: "an input already of the target type must be returned as the same instance", Input: in, Got: "a different instance", Want: "same instance"})
+								}
+								continue
 							}
-							continue
-						}
-						if out.Bounds() != b {
-							wk.res.fail(Failure{Seq: wk.seq, Class: "C15:bounds:" + helper, Desc: "output bounds differ from the input's", Input: in, Got: out.Bounds().String(), Want: b.String()})
-							continue
-						}
-						draw.Draw(ref, b, img, b.Min, draw.Src)
-						// compare pixel rows (the helper allocates with NewX(bounds): stride = bpp*Dx)
-						bad := -1
-						if outStride != bpp*b.Dx() || len(outPix) != len(refPix) {
-							bad = 0
-						} else if !bytes.Equal(outPix, refPix) {
-							bad = firstDiff(outPix, refPix)
-						}
-						if bad >= 0 {
-							px := bad / bpp
-							x, y := b.Min.X, b.Min.Y
-							if b.Dx() > 0 {
-								x, y = b.Min.X+px%b.Dx(), b.Min.Y+px/b.Dx()
+							if out.Bounds() != b {
+								wk.res.fail(Failure{Seq: wk.seq, Class: "C15:bounds:" + helper, Desc: "output bounds differ from the input's", Input: in, Got: out.Bounds().String(), Want: b.String()})
+								continue
 							}
-							wk.res.fail(Failure{Seq: wk.seq, Class: "C15:pixel:" + helper + "<-" + kind, Desc: fmt.Sprintf("pixel (%d,%d) differs from draw.Draw(Src) (%s <- %s, parallelism %d)", x, y, helper, kind, par),
-								Input: in, Got: fmt.Sprint(out.At(x, y)), Want: fmt.Sprint(ref.At(x, y))})
+							draw.Draw(ref, b, img, b.Min, draw.Src)
+							// compare pixel rows (the helper allocates with NewX(bounds): stride = bpp*Dx)
+							bad := -1
+							if outStride != bpp*b.Dx() || len(outPix) != len(refPix) {
+								bad = 0
+							} else if !bytes.Equal(outPix, refPix) {
+								bad = firstDiff(outPix, refPix)
+							}
+							if bad >= 0 {
+								px := bad / bpp
+								x, y := b.Min.X, b.Min.Y
+								if b.Dx() > 0 {
+									x, y = b.Min.X+px%b.Dx(), b.Min.Y+px/b.Dx()
+								}
+								wk.res.fail(Failure{Seq: wk.seq, Class: "C15:pixel:" + helper + "<-" + kind, Desc: fmt.Sprintf("pixel (%d,%d) differs from draw.Draw(Src) (%s <- %s, parallelism %d)", x, y, helper, kind, par),
+									Input: in, Got: fmt.Sprint(out.At(x, y)), Want: fmt.Sprint(ref.At(x, y))})
+							}
 						}
 					}
 				}
+				compareAll(pars, "first conversion")
 				for i, p := range srcPix(img) {
 					if !bytes.Equal(p, before[i]) {
 						wk.res.fail(Failure{Seq: wk.seq, Class: "C15:input-modified", Desc: "the input image was modified", Input: map[string]interface{}{"input": kind, "seed": seed}, Got: "changed", Want: "unchanged"})
@@ -219,6 +222,48 @@ func init() {
 				if k, ok := img.(*image.Paletted); ok && !reflect.DeepEqual(k.Palette, palBefore) {
 					wk.res.fail(Failure{Seq: wk.seq, Class: "C15:input-modified", Desc: "the input image's palette was modified", Input: map[string]interface{}{"input": kind, "seed": seed},
 						Got: short(fmt.Sprintf("%#v", k.Palette), 160), Want: short(fmt.Sprintf("%#v", palBefore), 160)})
+				}
+				// the caller edits the image in place (pixels; for a paletted image also palette entries, keeping the
+				// same palette slice) and converts again: the result follows the new contents
+				if !b.Empty() && it%3 == 0 {
+					for _, p := range srcPix(img) {
+						for q := 0; q < 1+len(p)/4; q++ {
+							if len(p) > 0 {
+								p[lr.Intn(len(p))] ^= byte(1 + lr.Intn(255))
+							}
+						}
+					}
+					if k, ok := img.(*image.Paletted); ok {
+						for i := range k.Palette {
+							if lr.Intn(2) == 0 {
+								k.Palette[i] = color.NRGBA{uint8(lr.Intn(256)), uint8(lr.Intn(256)), uint8(lr.Intn(256)), uint8(lr.Intn(256))}
+							}
+						}
+						for i := range k.Pix {
+							k.Pix[i] %= uint8(len(k.Palette))
+						}
+					}
+					// premultiplied types: keep channels <= alpha so that the colour values stay valid
+					switch m := img.(type) {
+					case *image.RGBA:
+						for i := 0; i+3 < len(m.Pix); i += 4 {
+							for j := 0; j < 3; j++ {
+								if m.Pix[i+j] > m.Pix[i+3] {
+									m.Pix[i+j] = m.Pix[i+3]
+								}
+							}
+						}
+					case *image.RGBA64:
+						for i := 0; i+7 < len(m.Pix); i += 8 {
+							al := uint16(m.Pix[i+6])<<8 | uint16(m.Pix[i+7])
+							for j := 0; j < 6; j += 2 {
+								if uint16(m.Pix[i+j])<<8|uint16(m.Pix[i+j+1]) > al {
+									m.Pix[i+j], m.Pix[i+j+1] = m.Pix[i+6], m.Pix[i+7]
+								}
+							}
+						}
+					}
+					compareAll([]int{2}, "second conversion after the image was edited in place")
 				}
 			})
 		}
